@@ -21,6 +21,7 @@ use sos_core::{
 use std::panic::{catch_unwind, AssertUnwindSafe};
 mod folderops;
 mod logops;
+mod mergeops;
 mod reducer;
 mod secrets;
 mod search;
@@ -312,6 +313,7 @@ fn main() {
         "secret-roundtrip" => { rt().block_on(secrets::run(cases, seed)); }
         "folder-ops" => { rt().block_on(folderops::run(cases, seed)); }
         "log-ops" => { rt().block_on(logops::run(cases, seed)); }
+        "merge-patches" => { rt().block_on(mergeops::run(cases, seed)); }
         "search-index" => { search::run(cases, seed); }
         "tree-compare" => { tree::run(cases); }
         "reducer-replay" => {
